@@ -430,7 +430,7 @@ pub fn run(ctx: &Ctx) {
     ctx.extra("exhaustive_stage", json!({"lengths": "0..=70", "size_patterns": 3, "build_modes": 4, "cases": n, "exhaustive": true}));
     random_stage(ctx, "random", ctx.tier.pick(6_000, 100_000), tops_strategy, |ops: &Vec<TOp>, local| run_tops(ops, local));
     random_stage(ctx, "replicas", ctx.tier.pick(4_500, 80_000), || session_strategy(30), |ops: &Vec<SOp>, local| run_replica(ops, local));
-    random_stage(ctx, "crash-states", ctx.tier.pick(2_400, 60_000), || crate::props::c02::crash_history_strategy(14), |ops: &Vec<Op>, local| run_crash_states(ops, local));
+    random_stage(ctx, "crash-states", ctx.tier.pick(2_400, 30_000), || crate::props::c02::crash_history_strategy(14), |ops: &Vec<Op>, local| run_crash_states(ops, local));
     random_stage(ctx, "virtual-sizes", ctx.tier.pick(9_000, 60_000), virt_strategy, |c: &VirtCase, local| run_virtual(c, local));
     // a few large logs
     // (131 071 = 2^17 - 1 blocks have 17 roots, 262 143 have 18: more roots than any shorter log)
